@@ -78,6 +78,11 @@ def on_transition(ex: Explorer, res: Res, st, op, desc, ref, rs, exc):
         return
     if st.err:
         return
+    from ..exprs import marked_only_sum_index
+
+    if marked_only_sum_index(st.expr) or marked_only_sum_index(rs.expr):
+        res.outcomes["marked_only_sum_index_not_judged"] += 1
+        return
     atom_free = ex.atom_states[__import__("mc.exprs", fromlist=["struct_key"]).struct_key(ref[1])].free if ref[0] in ("mul", "div") else set()
     judged = 0
     for world in ex.worlds:
